@@ -230,7 +230,7 @@ def run(ck):
                           "kind": ["random", "jitter", "hex"][i % 3], "k": int(ck.rng.integers(0, 6)),
                           "subset": None if i % 2 == 0 else float(ck.rng.uniform(0.3, 0.8)),
                           "p_rev": [0.0, 0.5, 1.0][i % 3], "first": i == 0})
-    for case in cases:
+    def one(case):
         if case["type"] == "polygon":
             pts = polygon_case(case["seed"], case["n"], case["kind"], case["orient"], case["shift"], case["tx"], case["ty"], case["sc"])
             obs = observe(pts)
@@ -241,6 +241,9 @@ def run(ck):
             ck.count("polygons"); ck.count("orient_ccw" if shoelace(pts) > 0 else "orient_cw")
         else:
             run_tissue(ck, case, reqs, pending)
+
+    for case in cases:
+        ck.guard(case, one, case)
     resps = ck.driver(reqs)
     for (kind, case, a, b), resp in zip(pending, resps):
         if kind == "poly":
